@@ -13,28 +13,44 @@ import (
 )
 
 func c04ForeignKeys(c *Ctx) {
-	rounds := c.Scale(4, 20)
+	// deterministic part (every run, every tier): all relations between the generator's P and the foreign P
+	// (other primes of the same count, fewer, more, none) x a ternary and a Gaussian secret; both directions
+	// (foreign output key, foreign input key) are run for each. Key at the generator's full LevelP.
+	type fcase struct{ nPA, nPB, xs int }
+	fixed := []fcase{
+		{1, 1, 0}, {1, 1, 3}, // same count, other primes
+		{2, 2, 0}, {2, 2, 3},
+		{2, 1, 0}, {2, 1, 3}, // fewer
+		{1, 2, 0}, {1, 2, 3}, // more
+		{1, 0, 0}, {2, 0, 3}, // none
+	}
+	rounds := len(fixed) + c.Scale(2, 16)
 	for r := 0; r < rounds; r++ {
 		logN := 4 + c.rng.Intn(2)
 		nQ := 1 + c.rng.Intn(3)
-		nPA := 1 + c.rng.Intn(2)
-		if c.rng.Intn(6) == 0 {
-			nPA = 0
-		}
-		// the foreign P: other primes of the same count, fewer, more, none
-		var nPB int
-		switch r % 4 {
-		case 0:
-			nPB = nPA
-		case 1:
-			nPB = nPA - 1
-		case 2:
-			nPB = nPA + 1
-		default:
-			nPB = 0
-		}
-		if nPB < 0 {
-			nPB = 2
+		var nPA, nPB, xs int
+		isFixed := r < len(fixed)
+		if isFixed {
+			nPA, nPB, xs = fixed[r].nPA, fixed[r].nPB, fixed[r].xs
+		} else {
+			nPA = 1 + c.rng.Intn(2)
+			if c.rng.Intn(6) == 0 {
+				nPA = 0
+			}
+			switch r % 4 {
+			case 0:
+				nPB = nPA
+			case 1:
+				nPB = nPA - 1
+			case 2:
+				nPB = nPA + 1
+			default:
+				nPB = 0
+			}
+			if nPB < 0 {
+				nPB = 2
+			}
+			xs = c.rng.Intn(5)
 		}
 		bq := make([]int, nQ)
 		for i := range bq {
@@ -48,7 +64,6 @@ func c04ForeignKeys(c *Ctx) {
 		if !ok {
 			continue
 		}
-		xs := c.rng.Intn(5)
 		c04XsChoice = xs
 		psA, errA := c04NewPS(logN, Q, Pall[:nPA], true)
 		psB, errB := c04NewPS(logN, Q, Pall[nPA:], true)
@@ -58,13 +73,15 @@ func c04ForeignKeys(c *Ctx) {
 			continue
 		}
 		cfg := c04KeyCfg{lq: nQ - 1, lp: nPA - 1}
-		if nPA <= 1 && c.rng.Intn(2) == 0 {
-			cfg.w = 5 + c.rng.Intn(22)
+		if !isFixed {
+			if nPA <= 1 && c.rng.Intn(2) == 0 {
+				cfg.w = 5 + c.rng.Intn(22)
+			}
+			if nPA > 0 && c.rng.Intn(4) == 0 {
+				cfg.lp = c.rng.Intn(nPA+1) - 1
+			}
+			cfg.compressed = c.rng.Intn(4) == 0
 		}
-		if nPA > 0 && c.rng.Intn(4) == 0 {
-			cfg.lp = c.rng.Intn(nPA+1) - 1
-		}
-		cfg.compressed = c.rng.Intn(4) == 0
 		c.Count(fmt.Sprintf("foreign:Q%d:PA%d:PB%d:lp%d:w%d:xs%d", nQ, nPA, nPB, cfg.lp, cfg.w, xs))
 		skA := rlwe.NewKeyGenerator(psA.params).GenSecretKeyNew()
 		skB := rlwe.NewKeyGenerator(psB.params).GenSecretKeyNew() // generated under the OTHER parameters
